@@ -172,6 +172,12 @@ def build(run):
             S(S(C.Product(C.Product(X(C.JacobianInverse(m), 1, k), X(C.Jacobian(m), k, b)), U("u", (t,), b)), k), b))
         yield "shared b: (sum_b I_ab u_b) + (sum_b I_jb u_b) g_j...", lambda m, t, g: C.Product(S(C.Product(X(C.Identity(t), a, b), U("u", (t,), b)), b),
                                                                                               S(C.Product(X(C.Identity(t), j, b), U("u", (t,), b)), b))
+        # traced contractions (both outer slots carry the same index) next to other factors: the delta I_aa is a trace (= dim), not a
+        # substitution
+        yield "traced: sum_a sum_j (sum_k K_ak J_ka) g_j h_j", lambda m, t, g: S(S(C.Product(C.Product(S(C.Product(X(C.JacobianInverse(m), a, k), X(C.Jacobian(m), k, a)), k), U("g", (t,), j)), U("h", (t,), j)), j), a)
+        yield "traced: sum_a (sum_k K_ak J_ka) g_a", lambda m, t, g: S(C.Product(S(C.Product(X(C.JacobianInverse(m), a, k), X(C.Jacobian(m), k, a)), k), U("g", (t,), a)), a)
+        yield "traced: sum_a I_aa g_a h_a", lambda m, t, g: S(C.Product(C.Product(X(C.Identity(t), a, a), U("g", (t,), a)), U("h", (t,), a)), a)
+        yield "traced: sum_a sum_j I_aa g_j h_j", lambda m, t, g: S(S(C.Product(C.Product(X(C.Identity(t), a, a), U("g", (t,), j)), U("h", (t,), j)), j), a)
         # realistic: grad of a contravariant Piola mapped function contracted: K_ak (J_kb r_b)/detJ ...
         yield "piola-div-like", lambda m, t, g: S(S(C.Product(C.Product(X(C.JacobianInverse(m), a, k), C.Division(X(C.Jacobian(m), k, b), C.JacobianDeterminant(m))), U("r", (t, t), a, b)), b), a) if False else \
             S(S(C.Product(C.Product(X(C.JacobianInverse(m), a, k), X(C.Jacobian(m), k, b)), C.Product(C.Division(C.IntValue(1), C.JacobianDeterminant(m)), U("r", (t, t), a, b))), k), b)
@@ -201,7 +207,7 @@ def build(run):
     # individual traversals on the patterns they match (so a defect masked by a later pass is still seen)
     for nm, bld in pats[:14]:
         ob(f"JacobianCanceller/{nm}", "tri2d", bld, [CJ.JacobianCanceller])
-    for nm, bld in pats[14:28]:
+    for nm, bld in pats[14:32]:
         ob(f"IdentityEliminator/{nm}", "tri2d", bld, [CJ.IdentityEliminator])
 
     # ---- _as_base_exponent: den f == den(base)^exponent, no sign assumption
